@@ -412,6 +412,21 @@ func (x *Exec) mapValuesNonNil(v ssa.Value) bool {
 		case *ssa.Range:
 			v = w.X
 			continue
+		case *ssa.Call:
+			// the map is what an uncontracted repository helper returns: follow its (single) result
+			if sc := w.Call.StaticCallee(); sc != nil && sc.Blocks != nil && !helperHasContract(sc) && sc.Signature.Results().Len() == 1 {
+				var rets []ssa.Value
+				for _, b := range sc.Blocks {
+					if r, ok := b.Instrs[len(b.Instrs)-1].(*ssa.Return); ok && len(r.Results) == 1 {
+						rets = append(rets, r.Results[0])
+					}
+				}
+				if len(rets) == 1 {
+					v = rets[0]
+					continue
+				}
+			}
+			return false
 		case *ssa.UnOp:
 			fa, ok := w.X.(*ssa.FieldAddr)
 			if !ok {
